@@ -122,6 +122,10 @@ def shapes(tier):
     out.append(("dim num subscript", "DIM A(Y)", True, False, "thorough"))
     out.append(("array cell str to num", 'A(1) = S$', True, False, "quick"))
     out.append(("array read str subscript", 'X = A(S$)', True, False, "thorough"))
+    out.append(("array cell str second subscript", 'A(1, S$) = 5', True, False, "quick"))
+    out.append(("array read str second subscript", 'X = A(1, S$)', True, False, "quick"))
+    out.append(("dim str second subscript", 'DIM A(2, S$)', True, False, "quick"))
+    out.append(("array read 3 subscripts str last", 'X = A(1, 2, S$)', True, False, "thorough"))
     out.append(("missing operand", "X = Y +", True, False, "quick"))
     out.append(("missing equals", "X Y", True, False, "quick"))
     out.append(("stray token", ") = 1", True, False, "thorough"))
